@@ -115,7 +115,7 @@ def strategy(tier: str):
         st.binary(max_size=40),
         st.sampled_from((b"\xff\xfe", b"\xef\xbb\xbf{}", b"\xef\xbb\xbf", b"{\"1\": \xff}", b"\x00", b"{}\x00", b"nul", b"[]", b"{\"1\":{}}", b"1", b"\"x\"", b"{\"a\":1}{}", b"  ", b"\n")),
     ).map(lambda b: {"kind": "content", "origin": "bytes", "data": b.decode("latin-1")})
-    special = st.sampled_from(("missing-empty-registry", "missing-with-registry", "empty-file", "directory")).map(lambda w: {"kind": "special", "what": w})
+    special = st.sampled_from(("missing-empty-registry", "missing-with-registry", "empty-file", "directory", "missing-after-start", "missing-after-save", "missing-after-load")).map(lambda w: {"kind": "special", "what": w})
     return st.one_of(_mutated(), _mutated(), _mutated(), _prefix(), arbitrary_json, arbitrary_json, raw, special)
 
 
@@ -143,18 +143,18 @@ def enumerate_cases(tier: str):
         yield {"kind": "content", "origin": "deep", "data": "[" * depth}
         yield {"kind": "content", "origin": "deep", "data": '{"1":' * depth}
         yield {"kind": "content", "origin": "deep", "data": '{"1":{"node_id":1,"node_type":1,"protocol_version":"2","children":' + '{"1":' * depth}
-    for what in ("missing-empty-registry", "missing-with-registry", "empty-file", "directory", "missing-after-start"):
+    for what in ("missing-empty-registry", "missing-with-registry", "empty-file", "directory", "missing-after-start", "missing-after-save", "missing-after-load"):
         yield {"kind": "special", "what": what}
     fixture = {"1": {"sensor_id": 1, "children": {"1": {"id": 1, "type": 38, "description": "", "values": {"49": "x"}}}, "type": 17, "sketch_name": "s", "sketch_version": "1", "battery_level": 0, "protocol_version": "2.3.2", "heartbeat": 0}}
     text = json.dumps(fixture, indent=2)
     for cut in range(len(text) + 1):
         yield {"kind": "content", "origin": "prefix", "data": text[:cut]}
     for key in list(fixture["1"]):
-        for value in (None, 5, "x", [], {}, True, 1.5, -1, 300, "5"):
+        for value in (None, 5, "x", [], {}, True, 1.5, -1, 300, "5", float("inf"), float("-inf"), float("nan"), 1e308, -0.0, 2.5, 1e22, 2**63, -(2**63), 10**40):
             doc = json.loads(text)
             doc["1"][key] = value
             yield {"kind": "content", "origin": "mutated", "data": json.dumps(doc)}
-    for value in (None, 5, "x", [], {}, True, 1.5, [1], {"id": 1}, {"x": 1}):
+    for value in (None, 5, "x", [], {}, True, 1.5, [1], {"id": 1}, {"x": 1}, float("inf"), float("-inf"), float("nan"), 1e308, 2**63, 10**40):
         doc = json.loads(text)
         doc["1"]["children"]["1"] = value
         yield {"kind": "content", "origin": "mutated", "data": json.dumps(doc)}
@@ -216,6 +216,13 @@ def run_case(case: dict) -> Outcome:
                 open(path, "w").close()
             elif what == "directory":
                 os.mkdir(path)
+            elif what in ("missing-after-save", "missing-after-load"):
+                # the same Persistence object wrote or read the file earlier; the file has been removed since and the registry is unchanged
+                env.install_registry(gateway.nodes, {"5": {"sketch_name": "saved before", "children": {"1": {"child_type": 6, "values": {"0": "1"}}}}})
+                await gateway.persistence.save()
+                if what == "missing-after-load":
+                    await gateway.persistence.load()
+                os.unlink(path)
             elif what == "missing-after-start":
                 env.install_registry(gateway.nodes, {"4": {"sketch_name": "started first"}})
                 await gateway.persistence.start()
